@@ -94,6 +94,11 @@ where
                     for _ in 0..entry.num_items {
                         let (rest, raw_string) = complete::take_till(|item| item == 0)(remaining)?;
                         // the null byte is still in there.. we need to cut it out.
+                        if rest.is_empty() {
+                            return Err(Error::Nom(
+                                "unterminated string in IndexData::StringArray entry".to_string(),
+                            ));
+                        }
                         remaining = &rest[1..];
                         let string = String::from_utf8_lossy(raw_string).to_string();
                         strings.push(string);
@@ -102,7 +107,13 @@ where
                 IndexData::I18NString(strings) => {
                     for _ in 0..entry.num_items {
                         let (rest, raw_string) = complete::take_till(|item| item == 0)(remaining)?;
-                        remaining = rest;
+                        // skip the null terminator, as for string arrays
+                        if rest.is_empty() {
+                            return Err(Error::Nom(
+                                "unterminated string in IndexData::I18NString entry".to_string(),
+                            ));
+                        }
+                        remaining = &rest[1..];
                         let string = String::from_utf8_lossy(raw_string).to_string();
                         strings.push(string);
                     }
